@@ -335,6 +335,9 @@ SPECIAL = [
     'ON ERROR GOTO h\nPRINT 1 \\ 0\nPRINT "next"\nEND\nh: PRINT "H"\nRESUME NEXT\n',
     '\n\n\' comment\nPRINT 1\n\nREM x\nPRINT 2\n',
     '',
+    # procedures written BEFORE the module-level code: code order differs from source order
+    'SUB foo\n  PRINT "in foo"\n  PRINT "still foo"\nEND SUB\nPRINT "main 1"\nCALL foo\nPRINT "main 2"\nCALL foo\n',
+    'FUNCTION twice% (n%)\n  twice% = n% * 2\nEND FUNCTION\nSUB show (v%)\n  PRINT v%\nEND SUB\nx% = twice%(2)\nCALL show(x%)\nFOR i% = 1 TO 2\n  CALL show(i%)\nNEXT\n',
     'SELECT CASE 2\nCASE 1\n  PRINT "one"\nCASE 2\n  PRINT "two"\nCASE ELSE\nEND SELECT\nWHILE w% < 2\n  w% = w% + 1\nWEND\n',
 ]
 
